@@ -39,6 +39,8 @@ class Cond:
     bounds: str = ""
     excl: Tuple[str, ...] = ()        # ids of known findings assumed away in this run
     twin: bool = True
+    approx: bool = False              # the condition runs under an over-approximating stub: a counterexample that does not
+                                      # reproduce natively is inconclusive, not a harness error
 
 
 _TEMPLATE = '''\
@@ -227,6 +229,11 @@ def run_cond(c: Cond, wd: str, idx: int) -> Obligation:
             return ob
         rp = replay_native(c.module, c.func, c.shape, ob.cex, [n for n, _ in c.sym], c.excl)
         ob.replayed = (rp.get("ok") is False)
+        if c.approx and not ob.replayed:
+            ob.status = INCONCLUSIVE
+            ob.replayed = None
+            ob.detail = "counterexample under an over-approximating stub did not reproduce natively: " + repr(ob.cex)[:200]
+            return ob
         ob.cex = {"call": f"{c.module}.{c.func}", "kwargs": rp.get("kwargs"), "native": {k: rp.get(k) for k in ("ret", "exc", "last")},
                   **({"patch": ob.cex["patch"]} if isinstance(ob.cex, dict) and ob.cex.get("patch") else {})}
         ob.finding = rp.get("site")
@@ -266,5 +273,7 @@ def run_conds(conds: List[Cond], pid: str, workers: int = NCPU, known: Sequence[
             break
         return out
 
-    res = run_parallel([lambda c=c: job(c) for c in conds], workers=workers)
-    return [o for lst in res for o in lst]
+    order = sorted(range(len(conds)), key=lambda i: -conds[i].timeout)      # long conditions first (better packing)
+    res = run_parallel([lambda c=conds[i]: job(c) for i in order], workers=workers)
+    back = {i: r for i, r in zip(order, res)}
+    return [o for i in range(len(conds)) for o in back[i]]
